@@ -26,7 +26,12 @@ FILES = [
     ("mpas_QU1920", "/repo/test/meshfiles/mpas/QU/mesh.QU.1920km.151026.nc", {"use_dual": False}),
     ("mpas_QU1920_dual", "/repo/test/meshfiles/mpas/QU/mesh.QU.1920km.151026.nc", {"use_dual": True}),
     ("exodus_CSne8", "/repo/test/meshfiles/exodus/outCSne8/outCSne8.g", {}),
+    ("scrip_CSne8", "/repo/test/meshfiles/scrip/outCSne8/outCSne8.nc", {}),
+    ("ugrid_quad_hexagon", "/repo/test/meshfiles/ugrid/quad-hexagon/grid.nc", {}),
+    ("ugrid_ov_RLL10_CSne4", "/repo/test/meshfiles/ugrid/ov_RLL10deg_CSne4/ov_RLL10deg_CSne4.ug", {}),
+    ("ugrid_geoflow", "/repo/test/meshfiles/ugrid/geoflow-small/grid.nc", {}),
 ]
+PARTIAL_FILES = {"ugrid_quad_hexagon"}
 
 
 def tla_set(xs, quote=False):
@@ -200,7 +205,7 @@ def run(ctx):
     thorough = ctx.tier == "thorough"
     names = CATALOGUE + EXTRA
     rots = list(range(1, 25)) if thorough else [2, 5, 9, 12, 16, 19, 21, 24]
-    cuts = [2, 3, 5]
+    cuts = [2, 3, 4, 5, 7] if thorough else [2, 3, 5]
     perm_nodes = ["tetrahedron", "octahedron"] if thorough else ["tetrahedron"]
     perm_faces = ["tetrahedron"]
 
@@ -225,7 +230,7 @@ def run(ctx):
         cases.append(c)
     # random renumberings of the larger meshes (node ids, face ids, start corners), seeded
     pool = [c for c in gen if not c["renumbered"] and c["name"] not in ("tetrahedron",) and c["rot"] in (0, rots[0], rots[-1])]
-    for k, c in enumerate(rng.sample(pool, min(len(pool), 240 if thorough else 60))):
+    for k, c in enumerate(rng.sample(pool, min(len(pool), 600 if thorough else 60))):
         cases.append(dict(python_renumber(c, rng, k), variant=k, centres="derived"))
     # the source supplies the face centres (as lon/lat only, as x/y/z only, as both)
     sup = [c for c in gen if not c["renumbered"] and c["rot"] in (0, rots[1]) and c["cut"] in (0, 5)]
@@ -238,16 +243,16 @@ def run(ctx):
     ctx.note("not_judged_no_node_with_three_faces", len(skipped_degenerate))
 
     # inputs beyond the enumerated scope (code -> spec)
-    big = planar_cases(rng, 60 if thorough else 12, 14 if thorough else 9)
+    big = planar_cases(rng, 150 if thorough else 12, 14 if thorough else 9)
     if thorough:
         for tag, path, kw in FILES:
             if os.path.exists(path):
-                big.append({"id": "file:" + tag, "file": path, "open_kwargs": kw, "closed": True, "check_ccw": True,
+                big.append({"id": "file:" + tag, "file": path, "open_kwargs": kw, "closed": tag not in PARTIAL_FILES, "check_ccw": True,
                             "variant": 0, "data": True, "n_qual": 1})  # fmt: skip
 
     # JIT off: a subset, in one subprocess
     jo_src = [c for c in cases if c["centres"] == "derived" and (c["rot"] in (0, rots[2]) or c["renumbered"])]
-    jo_src = rng.sample(jo_src, min(len(jo_src), 300 if thorough else 70))
+    jo_src = rng.sample(jo_src, min(len(jo_src), 600 if thorough else 70))
     jo_cases = [dict(c, id=c["id"] + "/jit=off") for c in jo_src] + [dict(c, id=c["id"] + "/jit=off") for c in big[:6]]
     proc, dst = start_jit_off(ctx, jo_cases)
 
@@ -331,6 +336,9 @@ def run(ctx):
         "projection: integer tables (fill -> -1 after dtype/fill flags), positions -> face ids by nearest oracle centre within 1e-8 rad",
         "float evaluation of lattice directions to lon/lat degrees",
         "random planar patches and sample files are not TLC-certified counter-clockwise: a float orientation pre-check admits them",
-        "on partial grids ring order is judged only at fully surrounded nodes, and the numbering of dual faces is left free",
+        "partial grids: 'surrounded by at least three faces' is read as 'at least three faces meet at the node' (DESIGN 6/C18); "
+        "ring order is judged only at fully surrounded nodes, and the numbering of dual faces is left free",
+        "JIT off = NUMBA_DISABLE_JIT=1 with numba's DISABLE_JIT frozen in the subprocess (uxarray/grid/area.py resets it at import)",
+        "grids whose file supplies its own face centres (MPAS) are judged against the centres the grid reports, not the centroid oracle",
         "UxDataset.get_dual is judged only when a UxDataset can be built at all (C10's subject); otherwise noted",
     ]
